@@ -31,6 +31,11 @@ type Plan struct {
 	AttesterSlashings [][]uint64 // each: the validators that double-vote
 	SurroundSlashing  []uint64   // validators of one surround-vote slashing
 	Exits             []uint64
+	// Payload (bellatrix, before the merge is complete only): "" = a payload that builds on the state's header (the
+	// merge happens with it if it has not happened yet); "none" = the default (empty) payload of a pre-merge block;
+	// "merge-arbitrary-parent" = the merge transition block with a parent hash the state knows nothing about;
+	// "merge-zero-block-hash" = the same with an all-zero block hash (a non-default payload all the same).
+	Payload string
 	// ExitEpochBack: the exits are dated this many epochs before the current one (and signed for that epoch)
 	ExitEpochBack uint64
 	// NewDeposits: deposit datas appended to the eth1 tree with this block's eth1 vote… (see eth1 flip)
@@ -321,7 +326,13 @@ func (n *Node) Produce(slot uint64, pl *Plan) (*refspec.SignedBlock, *refspec.St
 	// execution payload (merge happens with the first bellatrix block)
 	if pre.F >= refspec.Bellatrix {
 		p := refspec.DefaultPayload(c)
+		if pl.Payload != "" && (pre.F != refspec.Bellatrix || pre.IsMergeTransitionComplete(c)) {
+			return nil, nil, nil, fmt.Errorf("plan %q: payload variant %q only exists before the merge is complete", pl.Name, pl.Payload)
+		}
 		p.ParentHash = pre.LatestExecutionPayloadHeader.BlockHash
+		if pl.Payload == "merge-arbitrary-parent" || pl.Payload == "merge-zero-block-hash" {
+			p.ParentHash = sha256.Sum256([]byte("terminal-pow-block"))
+		}
 		p.PrevRandao = pre.RandaoMix(c, epoch)
 		p.Timestamp = pre.GenesisTime + slot*c.SecondsPerSlot
 		p.BlockNumber = pre.LatestExecutionPayloadHeader.BlockNumber + 1
@@ -346,6 +357,12 @@ func (n *Node) Produce(slot uint64, pl *Plan) (*refspec.SignedBlock, *refspec.St
 			p.BlobGasUsed = uint64(pl.Blobs) * 131072
 		}
 		p.BlockHash = sha256.Sum256([]byte(fmt.Sprintf("el-block-%d-%x-%d", slot, p.ParentHash, pl.Txs)))
+		if pl.Payload == "none" {
+			p = refspec.DefaultPayload(c)
+		}
+		if pl.Payload == "merge-zero-block-hash" {
+			p.BlockHash = refspec.Bytes32{} // only the engine judges block hashes
+		}
 		y.ExecutionPayload = p
 	}
 	// state root: run the reference block processing on a copy
